@@ -12,6 +12,163 @@ GEN = 'pylatexenc.latexnodes.parsers._generalnodes'
 EXPR = 'pylatexenc.latexnodes.parsers._expression'
 
 
+READER_MOVES = ('next_token', 'move_to_token', 'move_past_token', 'move_to_pos_chars', 'next_chars',
+                'skip_space_chars')
+
+
+def _has_none_fallback(stmts, var, attr, helpers, depth=0):
+    """do the statements give <var>.<attr> a value when it is None (inline, or through a helper
+    function that receives var)"""
+    for st in stmts:
+        if isinstance(st, ast.If):
+            t = unparse(st.test)
+            if t == '%s.%s is None' % (var, attr) and any(
+                    isinstance(b, ast.Assign) and unparse(b.targets[0]) == '%s.%s' % (var, attr)
+                    for b in st.body):
+                return True
+        for c in ast.walk(st):
+            if isinstance(c, ast.Call) and depth < 2:
+                h = helpers.get(call_name(c))
+                if h is None:
+                    continue
+                args = list(c.args)
+                params = [a.arg for a in h.args.args]
+                if params and params[0] in ('self', 'cls') and isinstance(c.func, ast.Attribute):
+                    params = params[1:]
+                for a, pn in zip(args, params):
+                    if isinstance(a, ast.Name) and a.id == var and \
+                            _has_none_fallback(h.body, pn, attr, helpers, depth + 1):
+                        return True
+    return False
+
+
+def _nodelist_position_fallback(ctx, repo):
+    gm = repo.mod(GEN)
+    gp = gm.methods('LatexGeneralNodesParser').get('parse')
+    if gp is None:
+        raise AnalysisError('anchor vanished: LatexGeneralNodesParser.parse')
+    helpers = dict((q.rsplit('.', 1)[-1], f) for q, f in gm.functions.items())
+    sites = []
+    for st in iter_own(gp):
+        if isinstance(st, ast.Assign) and isinstance(st.value, ast.Call) and \
+                call_name(st.value) == 'get_final_nodelist' and isinstance(st.targets[0], ast.Name):
+            blk = _block_of(st)
+            rest = blk[blk.index(st) + 1:]
+            var = st.targets[0].id
+            have = [a for a in ('pos', 'pos_end') if _has_none_fallback(rest, var, a, helpers)]
+            on_error = any(isinstance(p_, ast.ExceptHandler) for p_ in parents(st))
+            sites.append((st, var, have, on_error))
+    if len(sites) < 2:
+        raise AnalysisError('general-nodes parser: %d get_final_nodelist sites (expected the normal '
+                            'and the error exit)' % len(sites))
+    full = [x for x in sites if len(x[2]) == 2]
+    for st, var, have, on_error in sites:
+        cons = 'LatexGeneralNodesParser.parse: %s exit: %s' % ('error' if on_error else 'normal', short(st, 60))
+        if len(have) == 2:
+            ctx.holds('R06g', gm, st, '%s.pos / .pos_end get a fallback when None' % var, construct=cons)
+        elif full:
+            ctx.refuted('R06g', gm, st, 'the %s exit hands out %s without the missing-position fallback '
+                        '(%s) that the other exit applies: an empty list (stray closing token first) has '
+                        'pos None and the tolerant caller fails with TypeError'
+                        % ('error' if on_error else 'normal', var,
+                           'missing for ' + ', '.join(a for a in ('pos', 'pos_end') if a not in have)),
+                        construct=cons)
+        else:
+            ctx.unknown('R06g', gm, st, 'no exit applies a position fallback here (moved elsewhere?)',
+                        construct=cons)
+
+
+def _block_of(st):
+    p = getattr(st, '_parent', None)
+    for fld in ('body', 'orelse', 'finalbody'):
+        lst = getattr(p, fld, None)
+        if isinstance(lst, list) and any(x is st for x in lst):
+            return lst
+    return [st]
+
+
+def _retry_progress(ctx, repo):
+    """typestate over the reader position along each structural path that ends in a retry request"""
+    from .. import symex
+    em = repo.mod(EXPR)
+    n = 0
+    for qual, f in sorted(em.functions.items()):
+        if not any(isinstance(r, ast.Raise) and isinstance(r.exc, ast.Call) and
+                   call_name(r.exc).startswith('_TryAgain') for r in iter_own(f)):
+            continue
+        rd = [a.arg for a in f.args.args if 'reader' in a.arg]
+        if not rd:
+            ctx.unknown('R06f', em, f, 'no token reader parameter', construct=qual)
+            continue
+        rd = rd[0]
+
+        def is_sink(c):
+            return call_name(c) in READER_MOVES and call_recv(c) is not None and unparse(call_recv(c)) == rd
+        try:
+            w = symex.Walker(is_sink=is_sink, want_raises=True, trace=True)
+            cases = [c for c in w.run(f) if c.kind == 'raise' and isinstance(c.sub, ast.Call)
+                     and call_name(c.sub).startswith('_TryAgain')]
+        except symex.TooManyPaths as e:
+            ctx.unknown('R06f', em, f, str(e), construct=qual)
+            continue
+        by_site = {}
+        for cs in cases:
+            by_site.setdefault(cs.node.lineno, []).append(cs)
+        for line, lst in sorted(by_site.items()):
+            n += 1
+            bad, unk = None, None
+            for cs in lst:
+                defs = cs.env.get('#def', {})
+                toks = {sym for sym, d in defs.items() if isinstance(d, ast.Call) and call_name(d) == 'next_token'}
+                facts = set()
+                for t, pol in cs.conds:
+                    for a, ap in symex._atoms(t, pol):
+                        facts.add((unparse(a), ap))
+                state = 'START'
+                for node, sub in cs.env.get('#trace', ()):
+                    cn = call_name(sub)
+                    if cn in ('next_token', 'next_chars'):
+                        state = 'PAST'
+                    elif cn == 'move_past_token':
+                        state = 'PAST'
+                    elif cn == 'move_to_pos_chars':
+                        a0 = unparse(sub.args[0]) if sub.args else ''
+                        state = 'PAST' if a0.endswith('.recovery_token_at_pos') else 'UNKNOWN:' + a0
+                    elif cn == 'skip_space_chars':
+                        pass        # never moves backwards
+                    elif cn == 'move_to_token':
+                        tk = unparse(sub.args[0]) if sub.args else ''
+                        rw = kwarg(sub, 'rewind_pre_space') or (sub.args[1] if len(sub.args) > 1 else None)
+                        if tk not in toks and not tk.endswith('.recovery_token_placeholder'):
+                            state = 'UNKNOWN:move_to_token(%s)' % tk
+                        elif isinstance(rw, ast.Constant) and rw.value is False:
+                            nonempty = ('len(%s.pre_space)' % tk, True) in facts or \
+                                ('%s.pre_space' % tk, True) in facts
+                            state = 'PAST' if nonempty else 'START'
+                        elif rw is None or (isinstance(rw, ast.Constant) and rw.value is True):
+                            state = 'START'     # back over the leading whitespace: where we began
+                        else:
+                            state = 'UNKNOWN:rewind=%s' % unparse(rw)
+                if state == 'START':
+                    bad = cs
+                elif state.startswith('UNKNOWN'):
+                    unk = (cs, state)
+            cons = '%s: retry request (%s)' % (qual, short(lst[0].node, 60))
+            if bad is not None:
+                tr = ' ; '.join(short(sub, 50) for _, sub in bad.env.get('#trace', ()))
+                ctx.refuted('R06f', em, bad.node, 'on the path [%s] the reader calls are <%s>: the reader is '
+                            'back where the attempt started when the parser asks to be called again -- the '
+                            'same token is read again and tolerant parsing never ends'
+                            % (' & '.join(bad.cond_src())[-160:], tr), construct=cons)
+            elif unk is not None:
+                ctx.unknown('R06f', em, unk[0].node, 'reader position not tracked: %s' % unk[1], construct=cons)
+            else:
+                ctx.holds('R06f', em, lst[0].node, 'reader strictly advanced on %d path(s)' % len(lst),
+                          construct=cons)
+    if n < 4:
+        raise AnalysisError('retry progress: only %d retry sites found' % n)
+
+
 def run(ctx):
     repo = ctx.repo
     prog = totality.program(repo)
@@ -29,6 +186,14 @@ def run(ctx):
                      'error leaving the collector re-raises it as LatexWalkerNodesParseError with '
                      'recovery_nodes = the collector\'s final node list; the unmet-stop error carries '
                      'the collected node list too', 3)
+    ctx.rule('R06f', 'retry progress: whenever the expression parser asks to be called again '
+                     '(_TryAgainWithSkippedCommentOrWhitespaceNodes), the reader stands strictly after '
+                     'the position it had when the attempt started (past the token, at the token after '
+                     'non-empty leading whitespace, or at the recovery position of a token error)', 4)
+    ctx.rule('R06g', 'sibling exits agree: the general-nodes parser gives the collector\'s final node '
+                     'list a position when it has none (empty list) on the error exit exactly as on the '
+                     'normal exit; a recovery list without position makes the tolerant caller fail with '
+                     'TypeError instead of recovering', 2)
     ctx.rule('R06e', 'mode non-interference: tolerant_parsing is read only inside exception handling '
                      '(the tolerance check, the reader\'s handler), when constructing readers/walkers, '
                      'and in legacy shims; every argument of check_tolerant_parsing_ignore_error is a '
@@ -239,6 +404,8 @@ def run(ctx):
                            trivial=True)
     ctx.analysed['tolerant_parsing_reads'] = len(reads)
     ctx.analysed['tolerance_check_calls'] = n_calls
+    _retry_progress(ctx, repo)
+    _nodelist_position_fallback(ctx, repo)
     ctx.assume('termination is decided only through token-level progress (R06b, C11 R11a); implicit '
                'exceptions only through the crash-construct rules')
     return 'other', (
